@@ -72,6 +72,12 @@ func runC42(rc *sk.RunCtx) {
 	vid.trust = []*simCA{cas[0], cas[1]}
 	vspec := &nodeSpec{name: "victim", nets: nets, udp: underlayAddr(0, 0), id: vid, static: map[string][]string{},
 		extra: map[string]any{"timers": map[string]any{"connection_alive_interval": alive, "pending_deletion_interval": pendDel}}}
+	// pki.disconnect_invalid: false asks the node to keep tunnels whose certificate stopped verifying (expired,
+	// CA gone); a blocklisted peer is disconnected all the same. With it the "untrusted" half is not judged.
+	keepInvalid := tp.Chance(1, 3)
+	if keepInvalid {
+		deepMerge(vspec.extra, map[string]any{"pki": map[string]any{"disconnect_invalid": false}})
+	}
 	type peerInfo struct {
 		node *simNode
 		addr netip.Addr
@@ -207,11 +213,22 @@ func runC42(rc *sk.RunCtx) {
 			cand.desc = "re-issue"
 		case 2: // add the missing version (same networks as the other one)
 			if hasV1 && !hasV2 {
-				reissue(id, cert.Version2, curNets(cert.Version1), after)
+				n := curNets(cert.Version1)
 				cand.desc = "add v2 with the v1 networks"
+				if tp.Chance(1, 3) {
+					// the v1 network is in the v2 certificate, but not as its primary network
+					n = append([]netip.Prefix{netip.MustParsePrefix("10.129.0.1/24")}, n...)
+					cand.desc = "add v2 that lists the v1 network second"
+				}
+				reissue(id, cert.Version2, n, after)
 			} else if hasV2 && !hasV1 {
-				reissue(id, cert.Version1, curNets(cert.Version2)[:1], after)
+				n := curNets(cert.Version2)[:1]
 				cand.desc = "add v1 with the primary network"
+				if len(curNets(cert.Version2)) > 1 && tp.Chance(1, 2) {
+					n = curNets(cert.Version2)[1:2]
+					cand.desc = "add v1 with the second network of the v2 certificate"
+				}
+				reissue(id, cert.Version1, n, after)
 			} else {
 				cand.desc = "re-issue"
 			}
@@ -412,7 +429,7 @@ func runC42(rc *sk.RunCtx) {
 			// newly blocklisted / untrusted peers must be gone by their next check
 			for _, p := range peers {
 				newly := newBlocked[p.fp] && !blocked[p.fp]
-				untrusted := !slices.Contains(curPool, cas[p.ca])
+				untrusted := !slices.Contains(curPool, cas[p.ca]) && !keepInvalid
 				if newly || untrusted {
 					p := p
 					deadline := sw.now + time.Duration(max(alive, pendDel))*time.Second + 1200*time.Millisecond
